@@ -35,7 +35,8 @@ def doDispatch (l : Line) : Option String := do
   let oa ← match ← l.get? "out" with
     | "none" => some OArg.none | "in" => some (OArg.inRange 1) | "foreign" => some OArg.foreign
     | _ => none
-  let leaf := synthLeaf sg ret raw fn (fun v i => 2.0 * v i + 1.0)
+  let junk := (l.bool? "junk").getD false
+  let leaf := synthLeaf sg ret raw fn junk (fun v i => 2.0 * v i + 1.0)
   let s0 : St Float := { mem := fun b => if b = 0 then vecOf xv else if b = 1 then vecOf yv
                                           else fun _ => nanF, next := 2 }
   let dump (s : St Float) (b : Nat) := showList showBits ((List.range n).map (s.mem b))
